@@ -382,7 +382,7 @@ func (e *Executor) startExecution(ctx context.Context, t *ast.Task, execute func
 
 	e.executionHashesMutex.Lock()
 
-	if otherExecutionCtx, ok := e.executionHashes[h]; ok {
+	if otherExecution, ok := e.executionHashes[h]; ok {
 		e.executionHashesMutex.Unlock()
 		e.Logger.VerboseErrf(logger.Magenta, "task: skipping execution of task: %s\n", h)
 
@@ -390,20 +390,25 @@ func (e *Executor) startExecution(ctx context.Context, t *ast.Task, execute func
 		reacquire := e.releaseConcurrencyLimit()
 		defer reacquire()
 
+		// Wait for the execution itself (not for the context of whoever
+		// started it) and report its outcome to this caller too.
 		verifhook.At("exec.wait", h)
-		<-otherExecutionCtx.Done()
+		<-otherExecution.done
 		verifhook.At("exec.woke", h)
-		return nil
+		return otherExecution.err
 	}
 
 	ctx, cancel := context.WithCancel(ctx)
 	defer cancel()
 
-	e.executionHashes[h] = ctx
+	execution := &taskExecution{done: make(chan struct{})}
+	e.executionHashes[h] = execution
 	e.executionHashesMutex.Unlock()
 	verifhook.At("exec.registered", h)
 
-	return execute(ctx)
+	defer close(execution.done)
+	execution.err = execute(ctx)
+	return execution.err
 }
 
 // FindMatchingTasks returns a list of tasks that match the given call. A task
